@@ -45,6 +45,8 @@ CONSTANTS
   Weak_SaveBeforeValidate,  \* SaveBlock(first) runs before the verification result is looked at
   Weak_NoRedo,              \* on failure: no RedoRequest, no StopPeerForError
   Weak_SeenCommitUnchecked, \* second.LastCommit is stored as seen commit after the early-exit check only
+  MaxPending, PerPeer,      \* maxPendingRequests (600) and maxPendingRequestsPerPeer (20) of pool.go; the MC configs scale them down
+  Weak_RedoAlwaysCountsPending, \* bpRequester.reset adds 1 to pool.numPending even when the requester held no block
   Weak_NilSlotAddressUnchecked, \* VerifySeenCommit compares the validator address of commit-flag slots only
   Weak_StaleMaxPeerHeight,  \* SetPeerRange never lowers maxPeerHeight
   Weak_NoBlockValidation,   \* poolRoutine does not call ValidateBlock(first)
@@ -211,9 +213,12 @@ ValidateBlock(st, lastPows, b) ==
           /\ \A i \in 1..Len(b.lc.slots) : b.lc.slots[i] \notin {"R", "Q"}
 
 \* ------------------------------------------------------------------ pool (pool.go)
-\* pool = [h, req, peers, maxH]
-\*   req   : [pool.h .. pool.h+n-1 -> [peer, blk]]     requesters
-\*   peers : [subset of Peers -> [base, height, to]]    to = didTimeout
+\* pool = [h, req, peers, maxH, np]
+\*   req   : [pool.h .. pool.h+n-1 -> [peer, blk]]         requesters
+\*   peers : [subset of Peers -> [base, height, to, np]]    to = didTimeout, np = bpPeer.numPending
+\*   np    : BlockPool.numPending -- the code's own count of requesters that have no block yet
+\*           (makeNextRequester +1, AddBlock -1, bpRequester.reset +1 iff a block is dropped);
+\*           makeRequestersRoutine creates no requester while np >= maxPendingRequests
 ReqEmpty == [peer |-> Nil, blk |-> NilBlk]
 ReqHeights(pool) == DOMAIN pool.req
 MaxHeightOf(peers) ==
@@ -230,16 +235,19 @@ SetPeerRange(pool, p, base, height) ==
   LET known   == p \in DOMAIN pool.peers
       lowered == known /\ height < pool.peers[p].height
       peers2  == [q \in DOMAIN pool.peers \cup {p} |->
-                    IF q = p THEN [base |-> base, height |-> height, to |-> IF known THEN pool.peers[p].to ELSE FALSE]
+                    IF q = p THEN [base |-> base, height |-> height, to |-> IF known THEN pool.peers[p].to ELSE FALSE,
+                                   np |-> IF known THEN pool.peers[p].np ELSE 0]
                     ELSE pool.peers[q]]
       m       == IF lowered /\ ~Weak_StaleMaxPeerHeight THEN MaxHeightOf(peers2) ELSE pool.maxH
   IN [pool EXCEPT !.peers = peers2, !.maxH = IF height > m THEN height ELSE m]
 
 \* makeNextRequester
-CanMakeRequester(pool) == pool.h + Cardinality(ReqHeights(pool)) <= pool.maxH
+\* (makeRequestersRoutine: numPending >= maxPendingRequests -> sleep, no new requester)
+CanMakeRequester(pool) == pool.h + Cardinality(ReqHeights(pool)) <= pool.maxH /\ pool.np < MaxPending
 MakeRequester(pool) ==
   LET nh == pool.h + Cardinality(ReqHeights(pool)) IN
-  [pool EXCEPT !.req = [x \in ReqHeights(pool) \cup {nh} |-> IF x = nh THEN ReqEmpty ELSE pool.req[x]]]
+  [pool EXCEPT !.req = [x \in ReqHeights(pool) \cup {nh} |-> IF x = nh THEN ReqEmpty ELSE pool.req[x]],
+               !.np = @ + 1]
 
 \* pickIncrAvailablePeer + requestRoutine
 CanPick(pool, h, p) ==
@@ -247,21 +255,30 @@ CanPick(pool, h, p) ==
   /\ pool.req[h].peer = Nil
   /\ p \in DOMAIN pool.peers
   /\ ~pool.peers[p].to
+  /\ pool.peers[p].np < PerPeer
   /\ pool.peers[p].base <= h /\ h <= pool.peers[p].height
-Pick(pool, h, p) == [pool EXCEPT !.req[h].peer = p]
+Pick(pool, h, p) == [pool EXCEPT !.req[h].peer = p, !.peers[p].np = @ + 1]     \* bpPeer.incrPending
 
 \* AddBlock: [pool, err] ; err = TRUE when sendError(peer) is called
 AddBlock(pool, p, b) ==
   IF b.h \notin ReqHeights(pool)
   THEN [pool |-> pool, err |-> Abs(pool.h - b.h) > 100, set |-> FALSE]
   ELSE IF pool.req[b.h].blk = NilBlk /\ pool.req[b.h].peer = p
-       THEN [pool |-> [pool EXCEPT !.req[b.h].blk = b], err |-> FALSE, set |-> TRUE]
+       THEN [pool |-> [pool EXCEPT !.req[b.h].blk = b, !.np = @ - 1,
+                                   !.peers = IF p \in DOMAIN pool.peers      \* bpPeer.decrPending
+                                             THEN [pool.peers EXCEPT ![p].np = @ - 1] ELSE pool.peers],
+             err |-> FALSE, set |-> TRUE]
        ELSE [pool |-> pool, err |-> TRUE, set |-> FALSE]
 
 \* removePeer (+ the requesters' redo -> reset, which the requester goroutines perform next)
 PoolRemove(pool, p) ==
-  LET peers2 == Restrict(pool.peers, DOMAIN pool.peers \ {p}) IN
+  LET peers2 == Restrict(pool.peers, DOMAIN pool.peers \ {p})
+      mine   == {x \in ReqHeights(pool) : pool.req[x].peer = p}
+      \* bpRequester.reset: a requester that drops a block is pending again; one without a block still is
+      again  == IF Weak_RedoAlwaysCountsPending THEN mine ELSE {x \in mine : pool.req[x].blk # NilBlk}
+  IN
   [pool EXCEPT
+     !.np    = @ + Cardinality(again),
      !.req   = [x \in ReqHeights(pool) |-> IF pool.req[x].peer = p THEN ReqEmpty ELSE pool.req[x]],
      !.peers = peers2,
      !.maxH  = IF p \in DOMAIN pool.peers /\ pool.peers[p].height = pool.maxH
@@ -275,6 +292,13 @@ PopRequest(pool) ==
 IsCaughtUp(pool) ==
   /\ DOMAIN pool.peers # {}
   /\ (pool.maxH = 0 \/ pool.h >= pool.maxH - 1)
+
+\* the counters the code keeps are what they claim to count
+Blockless(pool) == {x \in ReqHeights(pool) : pool.req[x].blk = NilBlk}
+PendingExact(pool) == pool.np = Cardinality(Blockless(pool))
+PeerPendingExact(pool) ==
+  \A p \in DOMAIN pool.peers :
+     pool.peers[p].np = Cardinality({x \in Blockless(pool) : pool.req[x].peer = p})
 
 \* PeekTwoBlocks
 HasTwo(pool) ==
